@@ -12,7 +12,7 @@
 (* consistency laws below (every written name appears exactly once in the  *)
 (* tree; a clause that is not chosen leaves no field).                     *)
 (***************************************************************************)
-EXTENDS Integers, Sequences, FiniteSets, TLC, Json
+EXTENDS Integers, Sequences, FiniteSets, TLC, Json, Forms2
 
 CONSTANT Emit
 
@@ -291,7 +291,7 @@ VARIABLES case, done
 vars == <<case, done>>
 Init == /\ done = FALSE
         /\ \/ \E c \in SelectCfg : ValidSelect(c) /\ case = [name |-> "select", cfg |-> c, toks |-> SelToks(c), tree |-> SelTree(c)]
-           \/ \E f \in Forms : case = [name |-> f.name, cfg |-> <<>>, toks |-> f.toks, tree |-> f.tree]
+           \/ \E f \in Forms \cup Forms2 : case = [name |-> f.name, cfg |-> <<>>, toks |-> f.toks, tree |-> f.tree]
            \/ \E c \in TailCfg : ValidTail(c) /\ case = [name |-> "tail", cfg |-> c, toks |-> TailToks(c), tree |-> TailTree(c)]
            \/ \E c \in WindowCfg : ValidWindow(c) /\ case = [name |-> "window-spec", cfg |-> c, toks |-> WindowToks(c), tree |-> WindowTree(c)]
            \/ \E g \in GroupExt, n \in 1..2 : case = [name |-> "group-" \o g, cfg |-> <<>>, toks |-> GroupExtToks(g, n), tree |-> GroupExtTree(g, n)]
